@@ -70,6 +70,10 @@ func C01(r *report.Report, tier string) {
 		for _, eager := range []bool{false, true} {
 			jobs = append(jobs, crashArg{Prop: "C01", DiskSize: 3000, Setup: crashSetup, Ops: h, Cap: cap, Eager: eager, Probe: crashProbe, Nested: tier == "thorough" || len(h) == 1})
 		}
+		if tier == "thorough" && len(h) <= 2 {
+			// descending map iteration: the other order of blocks inside one log append and of lock releases
+			jobs = append(jobs, crashArg{Prop: "C01", DiskSize: 3000, Setup: crashSetup, Ops: h, Cap: cap, MapDesc: true, Probe: crashProbe})
+		}
 	}
 	runCrashJobs(r, jobs, map[string]bool{"C01": true})
 	r.Add("states", int64(r.NDistinct()))
